@@ -19,7 +19,7 @@ type rmove struct {
 	txid        int64
 }
 
-func instant(t *Tx) int64 { return t.TS - t.Off }
+func instant(t *Tx) int64 { return t.TS - t.Off*sec }
 
 func replayMoves(ls []LogIn) []rmove {
 	var ms []rmove
